@@ -191,7 +191,9 @@ pub fn run(cases_path: &str, out_path: &str, tier: &str, seed: u64) {
                             if text_sig { b.sign_text(); } else { b.sign_binary(); }
                             if utf8 { b.data_mode(DataMode::Utf8).map_err(|e| e.to_string())?; }
                             for s in &signers {
-                                b.sign(&s.sec.primary_key, Password::empty(), h);
+                                // a co-signer on a large curve gets a hash wide enough for it
+                                let hs = if s.name.contains("p384") || s.name.contains("p521") || s.name.contains("448") { HashAlgorithm::Sha512 } else { h };
+                                b.sign(&s.sec.primary_key, Password::empty(), hs);
                             }
                             let bin = b.to_vec(rng(seed)).map_err(|e| format!("build: {e}"))?;
                             let check = |mut m: Message<'_>| -> Result<(), String> {
@@ -222,7 +224,9 @@ pub fn run(cases_path: &str, out_path: &str, tier: &str, seed: u64) {
                             if text_sig { b.sign_text(); } else { b.sign_binary(); }
                             if utf8 { b.data_mode(DataMode::Utf8).map_err(|e| e.to_string())?; }
                             for s in &signers {
-                                b.sign(&s.sec.primary_key, Password::empty(), h);
+                                // a co-signer on a large curve gets a hash wide enough for it
+                                let hs = if s.name.contains("p384") || s.name.contains("p521") || s.name.contains("448") { HashAlgorithm::Sha512 } else { h };
+                                b.sign(&s.sec.primary_key, Password::empty(), hs);
                             }
                             let arm = b.to_armored_string(rng(seed), ArmorOptions::default()).map_err(|e| format!("build armored: {e}"))?;
                             let res = check(Message::from_armor(arm.as_bytes()).map_err(|e| e.to_string())?.0);
